@@ -77,6 +77,21 @@ impl vstd::std_specs::ops::SubSpecImpl<BigDecimal> for BigDecimal {
     open spec fn sub_spec(self, rhs: BigDecimal) -> BigDecimal { bd_of(dsub(self.val(), rhs.val()), false) }
 }
 impl std::ops::Sub<BigDecimal> for BigDecimal { type Output = BigDecimal; #[verifier::external_body] fn sub(self, o: BigDecimal) -> BigDecimal { unimplemented!() } }
+// division and remainder: the crate's operators (division rounds to the crate's default precision: named, not exact)
+pub uninterp spec fn ddiv(a: Dec, b: Dec) -> Dec;
+pub uninterp spec fn drem(a: Dec, b: Dec) -> Dec;
+impl vstd::std_specs::ops::DivSpecImpl<BigDecimal> for BigDecimal {
+    open spec fn obeys_div_spec() -> bool { true }
+    open spec fn div_req(self, rhs: BigDecimal) -> bool { dcmp(rhs.val(), dzero()) != std::cmp::Ordering::Equal }
+    open spec fn div_spec(self, rhs: BigDecimal) -> BigDecimal { bd_of(ddiv(self.val(), rhs.val()), false) }
+}
+impl std::ops::Div<BigDecimal> for BigDecimal { type Output = BigDecimal; #[verifier::external_body] fn div(self, o: BigDecimal) -> BigDecimal { unimplemented!() } }
+impl vstd::std_specs::ops::RemSpecImpl<BigDecimal> for BigDecimal {
+    open spec fn obeys_rem_spec() -> bool { true }
+    open spec fn rem_req(self, rhs: BigDecimal) -> bool { dcmp(rhs.val(), dzero()) != std::cmp::Ordering::Equal }
+    open spec fn rem_spec(self, rhs: BigDecimal) -> BigDecimal { bd_of(drem(self.val(), rhs.val()), false) }
+}
+impl std::ops::Rem<BigDecimal> for BigDecimal { type Output = BigDecimal; #[verifier::external_body] fn rem(self, o: BigDecimal) -> BigDecimal { unimplemented!() } }
 impl vstd::std_specs::cmp::PartialEqSpecImpl for BigDecimal {
     open spec fn obeys_eq_spec() -> bool { true }
     open spec fn eq_spec(&self, other: &Self) -> bool { dcmp(self.val(), other.val()) == std::cmp::Ordering::Equal }
@@ -198,5 +213,11 @@ out += cmpf("lt","lt.rs","dcmp(a, b) == %sLess" % O)
 out += cmpf("lte","lte.rs","dcmp(a, b) != %sGreater" % O)
 out += cmpf("eq","eq.rs","dcmp(a, b) == %sEqual" % O)
 out += cmpf("neq","neq.rs","dcmp(a, b) != %sEqual" % O)
+
+def binf(name, file, op, doc):
+    return fn("n_"+name, F+"nas_arithmetic/"+file, "nas."+name, '''        match (nas_val(arg(self.0@, value, 0)), nas_val(arg(self.0@, value, 1))) { (Some(a), Some(b)) => if dcmp(b, dzero()) == std::cmp::Ordering::Equal { None } else { Some(nas_json(%s(a, b))) }, _ => None }''' % op, doc)
+out += binf("divide","divide.rs","ddiv","(\\\"/\\\" a b): the crate's quotient of the two decimals, nothing when b is zero (no division by zero is ever attempted) or an argument is not a decimal string")
+out += binf("reminder","reminder.rs","drem","(\\\"%\\\" a b): the crate's remainder of the two decimals, nothing when b is zero or an argument is not a decimal string")
+out += fn("n_round", F+"nas_arithmetic/round.rs", "nas.round", "        match nas_val(arg(self.0@, value, 0)) { Some(a) => Some(nas_json(dround(a, 1, 0))), None => None }", "(\\\"round\\\" a): the decimal rounded to zero fraction digits (the crate's round(0)); nothing when a is not a decimal string", extra=clos % ("dround(number.val(), 1, 0)","number.round(0).into()"))
 out += "\n} // verus!\nfn main() {}\n"
 open('/verif/units/NAS.rs','w').write(out)
